@@ -102,7 +102,10 @@ def install(ex, reg):
         names = fn.attrs.get("__params__") if isinstance(fn, UFunc) else None
         if names is None:
             raise Unsupported("getfullargspec of %r" % (fn,))
-        return (st.new_obj("list", "list", items=list(names)), None, None, None, [], None, {})
+        # a FullArgSpec named tuple: readable by position ([0]) and by name (.args)
+        lst = st.new_obj("list", "list", items=list(names))
+        return st.new_obj("FullArgSpec", fields=dict(args=lst, varargs=None, varkw=None, defaults=None, kwonlyargs=st.new_obj("list", "list", items=[]), kwonlydefaults=None, annotations=None))
+    ex.call_hooks["getitem:FullArgSpec"] = lambda ex_, st, ctx, ref, idx: st.obj(ref).fields[("args", "varargs", "varkw", "defaults", "kwonlyargs", "kwonlydefaults", "annotations")[idx]]
     ex.call_hooks["inspect.getfullargspec"] = getfullargspec
     ex.call_hooks["getfullargspec"] = getfullargspec
     ex.call_hooks["OdeResult"] = lambda ex_, st, ctx, args, kwargs: st.new_obj("OdeResult", fields=dict(kwargs))
